@@ -708,6 +708,9 @@ def _grdp_step(ev, metrics, rdp, s, stp, k, events, bump, check):
     bump('o7_chain_len', len(trace))
     # the chain itself satisfies the definition
     for R, v in trace[-3:]:
+        v = _number(v)
+        if v is None:
+            continue
         if (float(v) != float(v) or math.isinf(float(v))) and s.api == 'cost:rmsle' and refmodel.rmsle_nan_admitted(s.orig, R):
             continue
         lo, hi = refmodel.global_cost_iv(s.orig, R, s.api.split(':')[1])
